@@ -37,3 +37,9 @@ check('C18',
       'Per-op SQL builders and the AlterTableSQLResult class are recording stand-ins; rebuild counts on real SQL traces and the optimiser regrouping are not part of this claim (see C03 and the C01/C02 engine). Trusted: CrossHair+z3, ast extraction.',
       'z3 on the source-extracted mergeable_ops table + CrossHair symbolic execution (z3) of generate_table_ops_sql with symbolic op sequences',
       design_ref='5.15')
+
+check('C16',
+      'Routing-decision kernel: bounded model checking of BaseModelMutation.is_mutable (seven model-mutation classes), BaseEvolutionTask.is_mutation_mutable and DeleteApplication.simulate with the router lookup replaced by a symbolic routing table: a mutation is kept for database D iff its model is routed to D. A genuine defect (router ignored when a database name is passed) is recorded as a known finding; everything outside its region is still exhausted.',
+      'Only the routing decision: tables created where, the other database staying untouched and per-database signatures need two live databases through the untraceable Evolver pipeline and are outside. Stub: get_database_for_model_name. Trusted: CrossHair+z3.',
+      'CrossHair symbolic execution (z3) of is_mutable / mutation filtering with a symbolic routing table; known-finding region excluded by precondition',
+      design_ref='5.13')
